@@ -118,7 +118,9 @@ func (l *limitListener) decrement() {
 
 	l.counter.decrement()
 
-	l.counterCond.Signal()
+	// Wake up all waiting goroutines and not just one of them, since a single
+	// decrement may reopen the counter for several connections at once.
+	l.counterCond.Broadcast()
 }
 
 // Close closes the underlying listener and signals to all goroutines waiting
